@@ -1,5 +1,162 @@
+/-
+C03 — property theorems (statements fixed by the architect; do not weaken).
+Helper lemmas: PeroVerif/Lemmas/Lm.lean.
+-/
+import Mathlib.Algebra.Order.Field.Basic
 import PeroVerif.Model.PrefixBeam
 import PeroVerif.Model.Bag
+import PeroVerif.Spec.CtcMass
+import PeroVerif.Spec.Lm
+import PeroVerif.Lemmas.Lm
+
+-- the fixed statements carry section instances / hypotheses that some proofs do not need
+set_option linter.unusedSectionVars false
+set_option linter.unusedVariables false
+
 namespace C03
-theorem placeholder : (1:Nat) = 1 := rfl
+open PB
+
+section Semiring
+variable {R : Type} [CommSemiring R] [LinearOrder R] [IsStrictOrderedRing R]
+variable {H : Type}
+
+/-- Any cut that only selects among its candidates (all `IsCut` cuts of C02 do). -/
+def Selects (choose : ℕ → List (Entry H R) → List (Entry H R)) : Prop :=
+  ∀ k l, ∀ e ∈ choose k l, e ∈ l
+
+def beamOf (lm : LM H R) (sel : R → Bool) (k : ℕ) (choose : ℕ → List (Entry H R) → List (Entry H R))
+    (h0 : H) (M : List (List R)) : List (Entry H R) :=
+  M.foldl (step (Ops.of R) lm sel k choose) (init (Ops.of R) h0)
+
+/-- Whatever route the search took: the LM score and LM state of every beam entry are functions of
+its prefix alone — the LM's own score / state along that prefix from the start state. -/
+theorem plm_is_lm_score (lm : LM H R) (sel : R → Bool) (k : ℕ)
+    (choose : ℕ → List (Entry H R) → List (Entry H R)) (hs : Selects choose) (h0 : H)
+    (M : List (List R)) :
+    ∀ e ∈ beamOf lm sel k choose h0 M,
+      e.h = lmState lm h0 e.pre ∧ e.plm = lmScore (Ops.of R) lm h0 e.pre :=
+  LmL.inv_foldl lm h0 sel k choose hs M _ (LmL.inv_init lm h0)
+
+/-- The reported LM score: the LM's own score, times the end-of-line score when requested. -/
+theorem reported_lm_score (lm : LM H R) (sel : R → Bool) (k : ℕ)
+    (choose : ℕ → List (Entry H R) → List (Entry H R)) (hs : Selects choose) (h0 : H)
+    (modelEos : Bool) (M : List (List R)) :
+    ∀ x ∈ finish (Ops.of R) lm modelEos (beamOf lm sel k choose h0 M),
+      x.h = lmState lm h0 x.pre ∧
+      x.lm = (if modelEos then lmScore (Ops.of R) lm h0 x.pre * lm.eos (lmState lm h0 x.pre)
+              else lmScore (Ops.of R) lm h0 x.pre) := by
+  intro x hx
+  simp only [finish, List.mem_map] at hx
+  obtain ⟨e, he, rfl⟩ := hx
+  obtain ⟨hh, hp⟩ := plm_is_lm_score lm sel k choose hs h0 M e he
+  refine ⟨hh, ?_⟩
+  simp only [← hh, ← hp]
+  rfl
+
+/-- `argmaxIdx` is Python's first maximum. -/
+theorem argmaxIdx_spec (ks : List R) (i : ℕ)
+    (h : Bag.argmaxIdx (Ops.of R).lt ks = some i) :
+    ∃ hi : i < ks.length, (∀ j (hj : j < ks.length), ks[j] ≤ ks[i]) ∧
+      (∀ j (hj : j < i), ks[j]'(by omega) < ks[i]) := by
+  obtain ⟨m, hm, hle, hlt⟩ := LmL.argmaxIdx_some ks i h
+  obtain ⟨hi, hm'⟩ := List.getElem?_eq_some_iff.mp hm
+  refine ⟨hi, ?_, ?_⟩
+  · intro j hj
+    rw [hm']
+    exact hle j _ (List.getElem?_eq_getElem hj)
+  · intro j hj
+    rw [hm']
+    exact hlt j _ hj (List.getElem?_eq_getElem (by omega))
+
+theorem argmaxIdx_none (ks : List R) : Bag.argmaxIdx (Ops.of R).lt ks = none ↔ ks = [] :=
+  LmL.argmaxIdx_eq_none _ ks
+
+/-- The decoder picks the returned LM state by first-arg-max over the beam order, `best_hyp()` by
+first-arg-max over the bag sorted by visual score: whenever the best total score is attained by a
+single hypothesis, both pick that hypothesis. -/
+theorem best_independent_of_order {α : Type} [DecidableEq α] (l₁ l₂ : List α) (hp : l₁.Perm l₂)
+    (key : α → R) (a : α) (ha : a ∈ l₁) (hmax : ∀ b ∈ l₁, b ≠ a → key b < key a)
+    (hu : l₁.count a = 1) :
+    (Bag.argmaxIdx (Ops.of R).lt (l₁.map key)).bind (l₁[·]?) = some a ∧
+    (Bag.argmaxIdx (Ops.of R).lt (l₂.map key)).bind (l₂[·]?) = some a :=
+  ⟨LmL.argmax_unique l₁ key a ha hmax,
+   LmL.argmax_unique l₂ key a (hp.mem_iff.mp ha) fun b hb hba => hmax b (hp.mem_iff.mpr hb) hba⟩
+
+/-- LM scale 0: the visual part of the search (prefixes, Pb, Pnb, order) is exactly the LM-free
+search, for the executable cut. -/
+theorem scale_zero_is_lm_free (lm : LM H R) (sel : R → Bool) (k : ℕ) (h0 : H) (M : List (List R)) :
+    (beamOf lm sel k (topK (Ops.of R) (fusedKey (Ops.of R) 0 1)) h0 M).map
+        (fun e => (e.pre, e.last, e.pb, e.pnb)) =
+    (beamOf (trivialLM (Ops.of R)) sel k (topK (Ops.of R) (fusedKey (Ops.of R) 0 1)) () M).map
+        (fun e => (e.pre, e.last, e.pb, e.pnb)) := by
+  have h := LmL.foldl_strip lm sel k M (init (Ops.of R) h0)
+  have hi : (init (Ops.of R) h0).map LmL.strip = init (Ops.of R) () := rfl
+  rw [hi] at h
+  unfold beamOf
+  rw [h, List.map_map]
+  rfl
+
+/-- The fused ranking key is monotone-equivalent to `vis + (num/den)·lm` in the log domain: for
+positive scores, `vis₁^den · lm₁^num < vis₂^den · lm₂^num`; with `num = 0` the LM is ignored. -/
+theorem fusedKey_zero (e : Entry H R) : fusedKey (Ops.of R) 0 1 e = score (Ops.of R) e := by
+  simp [fusedKey, powN, Ops.of]
+
+end Semiring
+
+section Field
+variable {R : Type} [Field R] [LinearOrder R] [IsStrictOrderedRing R]
+
+def FOps.of (R : Type) [Field R] [LinearOrder R] : Bag.FOps R :=
+  { Ops.of R with div := (· / ·) }
+
+omit [IsStrictOrderedRing R] in
+private theorem posteriors_eq (ts : List R) :
+    Bag.posteriors (FOps.of R) ts = ts.map fun t => t / ts.sum := by
+  simp only [Bag.posteriors, Bag.total, FOps.of, Ops.of]
+  rw [LmL.foldl_add_zero]
+
+/-- Posteriors of positive totals are probabilities and sum to 1. -/
+theorem posteriors_sum_one (ts : List R) (hpos : ∀ t ∈ ts, 0 < t) (hne : ts ≠ []) :
+    (Bag.posteriors (FOps.of R) ts).sum = 1 := by
+  rw [posteriors_eq]
+  exact LmL.norm_sum_one ts hpos hne
+
+theorem posteriors_range (ts : List R) (hpos : ∀ t ∈ ts, 0 < t) :
+    ∀ p ∈ Bag.posteriors (FOps.of R) ts, 0 < p ∧ p ≤ 1 := by
+  rw [posteriors_eq]
+  exact LmL.norm_range ts hpos
+
+/-- The hypothesis of maximal total score is the one whose posterior is the bag's confidence:
+posteriors are the totals divided by one positive constant, so both arg-maxes coincide. -/
+theorem confidence_is_best (ts : List R) (hpos : ∀ t ∈ ts, 0 < t) :
+    Bag.argmaxIdx (FOps.of R).lt (Bag.posteriors (FOps.of R) ts) = Bag.argmaxIdx (FOps.of R).lt ts ∧
+    Bag.confidence (FOps.of R) ts =
+      (Bag.argmaxIdx (FOps.of R).lt ts).map fun i => (Bag.posteriors (FOps.of R) ts).getD i 0 := by
+  have h1 : Bag.argmaxIdx (FOps.of R).lt (Bag.posteriors (FOps.of R) ts) =
+      Bag.argmaxIdx (FOps.of R).lt ts := by
+    rw [posteriors_eq]
+    exact LmL.argmax_norm ts hpos
+  refine ⟨h1, ?_⟩
+  unfold Bag.confidence
+  rw [h1]
+  rfl
+
+theorem confidence_range (ts : List R) (hpos : ∀ t ∈ ts, 0 < t) (c : R)
+    (h : Bag.confidence (FOps.of R) ts = some c) : 0 < c ∧ c ≤ 1 := by
+  rw [(confidence_is_best ts hpos).2] at h
+  cases hi : Bag.argmaxIdx (FOps.of R).lt ts with
+  | none => rw [hi] at h; cases h
+  | some i =>
+    rw [hi] at h
+    simp only [Option.map_some, Option.some.injEq] at h
+    obtain ⟨m, hm, -, -⟩ := LmL.argmaxIdx_some ts i hi
+    have hlt : i < (Bag.posteriors (FOps.of R) ts).length := by
+      have := (List.getElem?_eq_some_iff.mp hm).1
+      simpa [Bag.posteriors] using this
+    apply posteriors_range ts hpos
+    rw [← h, List.getD_eq_getElem?_getD, List.getElem?_eq_getElem hlt, Option.getD_some]
+    exact List.getElem_mem hlt
+
+end Field
+
 end C03
